@@ -122,6 +122,10 @@ def observer_restore(ctx, prog, cls_fq, name, comps):
 
 
 def run(ctx):
+    from rules.common import require_fields
+    require_fields(ctx.program, 'ioutils.SpooledStringIO', ['_tell', '_buffer'])
+    require_fields(ctx.program, 'ioutils.SpooledBytesIO', ['_buffer'])
+    require_fields(ctx.program, 'ioutils.MultiFileReader', ['_index', '_fileobjs'])
     prog = ctx.program
     for cls, comps in (('ioutils.SpooledBytesIO', ('BYTE',)), ('ioutils.SpooledStringIO', ('BYTE', 'TELL'))):
         for name in ('len', 'getvalue', '__eq__'):
